@@ -255,17 +255,20 @@ theorem parseBool_formatBool (b : Bool) : parseBool (formatBool b) = some b := b
 /-- what the theorems assume of the registries — the C17 conditions, discharged for the generated
     registry by `Kmip.C17.tags_bijective`, `tags_clean`, `enums_bijective`, `masks_ok`. -/
 structure Tables.WF (T : Tables) : Prop where
+  newTags : T.oldTags = false
   tags : bijective T.tagNames T.tagByName = true
   tagsClean : cleanNames T.tagNames = true
   enums : ∀ e ∈ T.enums, bijective e.2.1 e.2.2 = true ∧ cleanNames e.2.1 = true
   masks : ∀ m ∈ T.masks, MaskOk m.2.1 m.2.2
 
-/-- what the theorems assume of `time.Format / time.Parse(time.RFC3339)`: within years 1..9999 parsing
-    the formatted text gives the instant back, and the text does not begin with `0x` (it begins with the
-    four digits of the year). -/
+/-- what the theorems assume of `time.Format / time.Parse(time.RFC3339)` and of the readers' year test:
+    an instant whose local year is within 0..9999 (`inYears`) is formatted to a text that parses back to
+    it and that does not begin with `0x` (it begins with the four digits of the year); the years 1..9999
+    of the property (UTC seconds `minEpoch … maxEpoch`) pass the test. -/
 structure Rfc3339.Lawful (R : Rfc3339) : Prop where
-  roundtrip : ∀ s, minEpoch ≤ s → s ≤ maxEpoch → R.parse (R.format s) = some s
-  no0x : ∀ s, minEpoch ≤ s → s ≤ maxEpoch → ∀ rest, R.format s ≠ 48 :: 120 :: rest
+  roundtrip : ∀ s, R.inYears s = true → R.parse (R.format s) = some s
+  no0x : ∀ s, R.inYears s = true → ∀ rest, R.format s ≠ 48 :: 120 :: rest
+  years : ∀ s, minEpoch ≤ s → s ≤ maxEpoch → R.inYears s = true
 
 theorem Tables.WF.enum (h : T.WF) (g : Int) :
     bijective (enumByV T g) (enumByN T g) = true ∧ cleanNames (enumByV T g) = true := by
@@ -337,9 +340,9 @@ theorem xText_str (s : Bytes) : xText (strOfBytes s) = .ok s := by
 theorem xBytes_hex (s : Bytes) : xBytes (hexUp s) = .ok s := by
   unfold xBytes; rw [hexDec_hexUp]; rfl
 
-theorem xDate_format {R : Rfc3339} (hR : R.Lawful) {s : Int} (h1 : minEpoch ≤ s) (h2 : s ≤ maxEpoch) :
+theorem xDate_format {R : Rfc3339} (hR : R.Lawful) {s : Int} (h : R.inYears s = true) :
     xDate R (R.format s) = .ok s := by
-  unfold xDate; rw [hR.roundtrip s h1 h2]; rfl
+  unfold xDate; rw [hR.roundtrip s h]; simp [h]
 
 /-- Interval, every uint32. -/
 theorem xInterval_utoa {n : Nat} (h : n < 2 ^ 32) : xInterval (utoa n) = .ok n := by
@@ -417,14 +420,14 @@ theorem jText_str (s : Bytes) : jText (some (.str (strOfBytes s))) = .ok s := by
 theorem jBytes_hex (s : Bytes) : jBytes (some (.str (hexUp s))) = .ok s := by
   simp [jBytes, hexDec_hexUp, ofOpt]
 
-theorem jDate_format {R : Rfc3339} (hR : R.Lawful) {s : Int} (h1 : minEpoch ≤ s) (h2 : s ≤ maxEpoch) :
+theorem jDate_format {R : Rfc3339} (hR : R.Lawful) {s : Int} (h : R.inYears s = true) :
     jDate R (some (.str (R.format s))) = .ok s := by
-  have hno := hR.no0x s h1 h2
+  have hno := hR.no0x s h
   unfold jDate
   split
-  · rename_i h e; injection e with e; injection e with e; exact absurd e (hno _)
+  · rename_i h' e; injection e with e; injection e with e; exact absurd e (hno _)
   · rename_i s' e; injection e with e; injection e with e; subst e
-    rw [hR.roundtrip s h1 h2]; rfl
+    exact xDate_format hR h
   · rename_i hx hy; exact absurd rfl (hy _)
 
 theorem jInterval_num {n : Nat} (h : n < 2 ^ 32) : jInterval (some (.num (n : Int) true)) = .ok n := by
@@ -447,34 +450,76 @@ def tagOk (t : Int) : Bool := decide (0 < t) && decide (t < 16777216)
 
 theorem tagOk_iff {t : Int} : tagOk t = true ↔ 0 < t ∧ t < 16777216 := by simp [tagOk]
 
+/-- … or 0: what `Tag()` answers for an element without a usable tag; the generic decoder accepts it at
+    the ROOT only (inside a structure a child whose tag reads 0 ends the loop). -/
+def tagOk0 (t : Int) : Bool := decide (0 ≤ t) && decide (t < 16777216)
+
+theorem tagOk0_iff {t : Int} : tagOk0 t = true ↔ 0 ≤ t ∧ t < 16777216 := by simp [tagOk0]
+
+def rootTagOk (top : Bool) (t : Int) : Bool := if top then tagOk0 t else tagOk t
+
+theorem tagOk0_of_root {top : Bool} {t : Int} (h : rootTagOk top t = true) : tagOk0 t = true := by
+  cases top
+  · have := tagOk_iff.mp (by simpa [rootTagOk] using h)
+    exact tagOk0_iff.mpr ⟨by omega, this.2⟩
+  · simpa [rootTagOk] using h
+
 mutual
-  /-- the domain of the round-trip theorems, as an explicit decidable predicate: tags in `(0, 2^24)`;
-      Go ranges of the scalar types; dates within years 1..9999; the annotations of enumeration and
-      bit-mask nodes are what the reader is told (`H`) for their tag; an Integer node's tag is not read as
-      a mask. (Text strings are arbitrary byte sequences at this layer: which of them survive the
-      escaper / tokeniser pair of the standard library is outside the model.) -/
-  def XItem.representable (H : Hints) : XItem → Bool
-    | .struct t cs => tagOk t && XItem.representableList H cs
-    | .int t v => tagOk t && int32Ok v && decide ((H t).mask = none)
-    | .mask t m v => tagOk t && int32Ok v && decide ((H t).mask = some m)
-    | .long t v => tagOk t && int64Ok v
-    | .big t _ => tagOk t
-    | .enum t e v => tagOk t && decide (v < 4294967296) && decide ((H t).enumTag = e)
-    | .bool t _ => tagOk t
-    | .text t _ => tagOk t
-    | .bytes t _ => tagOk t
-    | .date t v => tagOk t && decide (minEpoch ≤ v) && decide (v ≤ maxEpoch)
-    | .interval t v => tagOk t && decide (v < 4294967296)
-  def XItem.representableList (H : Hints) : List XItem → Bool
+  /-- the domain of the round-trip theorems, as an explicit decidable predicate: tags in `(0, 2^24)` (the
+      root's may be 0 when `top`); Go ranges of the scalar types; dates the readers' year test accepts
+      (`R.inYears`: local years 0..9999, which contain the years 1..9999 of the property); the annotations
+      of enumeration and bit-mask nodes are what the reader is told (`H`) for their tag; an Integer node's
+      tag is not read as a mask. (Text strings are arbitrary byte sequences at this layer: which of them
+      survive the escaper / tokeniser pair of the standard library is outside the model.) -/
+  def XItem.representableG (top : Bool) (R : Rfc3339) (H : Hints) : XItem → Bool
+    | .struct t cs => rootTagOk top t && XItem.representableList R H cs
+    | .int t v => rootTagOk top t && int32Ok v && decide ((H t).mask = none)
+    | .mask t m v => rootTagOk top t && int32Ok v && decide ((H t).mask = some m)
+    | .long t v => rootTagOk top t && int64Ok v
+    | .big t _ => rootTagOk top t
+    | .enum t e v => rootTagOk top t && decide (v < 4294967296) && decide ((H t).enumTag = e)
+    | .bool t _ => rootTagOk top t
+    | .text t _ => rootTagOk top t
+    | .bytes t _ => rootTagOk top t
+    | .date t v => rootTagOk top t && R.inYears v
+    | .interval t v => rootTagOk top t && decide (v < 4294967296)
+  def XItem.representableList (R : Rfc3339) (H : Hints) : List XItem → Bool
     | [] => true
-    | x :: xs => x.representable H && XItem.representableList H xs
+    | x :: xs => x.representableG false R H && XItem.representableList R H xs
 end
 
-def XItem.Representable (H : Hints) (t : XItem) : Prop := t.representable H = true
+/-- every tag, the root's included, is a KMIP tag. -/
+def XItem.representable (R : Rfc3339) (H : Hints) (t : XItem) : Bool := t.representableG false R H
+/-- the root's tag may be 0 (an accepted top-level element without a usable tag). -/
+def XItem.representable0 (R : Rfc3339) (H : Hints) (t : XItem) : Bool := t.representableG true R H
 
-theorem XItem.tagOk_of_rep {H : Hints} {t : XItem} (h : t.representable H = true) : tagOk t.tag = true := by
-  cases t <;> simp only [XItem.representable, Bool.and_eq_true] at h <;> simp only [XItem.tag] <;>
+def XItem.Representable (R : Rfc3339) (H : Hints) (t : XItem) : Prop := t.representable R H = true
+def XItem.Representable0 (R : Rfc3339) (H : Hints) (t : XItem) : Prop := t.representable0 R H = true
+
+theorem XItem.rootTagOk_of_rep {top : Bool} {R : Rfc3339} {H : Hints} {t : XItem}
+    (h : t.representableG top R H = true) : rootTagOk top t.tag = true := by
+  cases t <;> simp only [XItem.representableG, Bool.and_eq_true] at h <;> simp only [XItem.tag] <;>
     first | exact h.1 | exact h.1.1 | exact h.1.1.1 | exact h
+
+theorem XItem.tagOk_of_rep {top : Bool} {R : Rfc3339} {H : Hints} {t : XItem}
+    (h : t.representableG top R H = true) : tagOk0 t.tag = true :=
+  tagOk0_of_root (XItem.rootTagOk_of_rep h)
+
+theorem XItem.tagPos_of_rep {R : Rfc3339} {H : Hints} {t : XItem}
+    (h : t.representableG false R H = true) : 0 < t.tag :=
+  (tagOk_iff.mp (by simpa [rootTagOk] using XItem.rootTagOk_of_rep h)).1
+
+/-- a representable tree is in particular representable as a root. -/
+theorem XItem.rep0_of_rep {R : Rfc3339} {H : Hints} : ∀ {t : XItem},
+    t.representableG false R H = true → t.representableG true R H = true := by
+  intro t h
+  have h0 : rootTagOk true t.tag = true := by
+    simpa [rootTagOk] using XItem.tagOk_of_rep h
+  cases t <;> simp only [XItem.representableG, Bool.and_eq_true, XItem.tag] at h h0 ⊢ <;>
+    first
+    | exact ⟨⟨h0, h.1.2⟩, h.2⟩
+    | exact ⟨h0, h.2⟩
+    | exact h0
 
 /-! ## 7. XML: elements and the cursor -/
 
@@ -523,15 +568,15 @@ theorem uintOf_nonneg {t : Int} (h0 : 0 ≤ t) (h1 : t < 16777216) : uintOf t = 
   unfold uintOf; omega
 
 /-- name and attributes of a start element, as two cases. -/
-theorem xmlStart_cases (T : Tables) (hT : T.WF) (ty : Nat) {tag : Int} (htag : tagOk tag = true)
+theorem xmlStart_cases (T : Tables) (hT : T.WF) (ty : Nat) {tag : Int} (htag : tagOk0 tag = true)
     (val : Option Str) :
     (lookup tag.toNat T.tagNames = none ∧
       xmlStart T ty tag val = (sTTLV, (sTag, hex0x 6 tag.toNat) :: (tyAttrs ty ++ valAttrs val))) ∨
     (∃ n, lookup tag.toNat T.tagNames = some n ∧ CleanFacts n ∧
       xmlStart T ty tag val = (unpack n, tyAttrs ty ++ valAttrs val)) := by
-  have ⟨h0, h1⟩ := tagOk_iff.mp htag
+  have ⟨h0, h1⟩ := tagOk0_iff.mp htag
   have hneg : ¬ tag < 0 := by omega
-  simp only [xmlStart, tagNameOf, hneg, if_false, uintOf_nonneg (Int.le_of_lt h0) h1]
+  simp only [xmlStart, tagNameOf, hneg, if_false, uintOf_nonneg h0 h1]
   cases hl : lookup tag.toNat T.tagNames with
   | none => left; exact ⟨rfl, rfl⟩
   | some n =>
@@ -548,21 +593,22 @@ theorem unpack_ne_TTLV {n : Nat} (f : CleanFacts n) : (unpack n != sTTLV) = true
   exact f.notTTLV this.symm
 
 /-- `Tag()` of a written start element is the tag. -/
-theorem tag_xmlStart (T : Tables) (hT : T.WF) (ty : Nat) {tag : Int} (htag : tagOk tag = true)
+theorem tag_xmlStart (T : Tables) (hT : T.WF) (ty : Nat) {tag : Int} (htag : tagOk0 tag = true)
     (val : Option Str) (r : List Tok) (b : Bool := false) :
     XCur.tag T ⟨some (xmlStart T ty tag val), r, b⟩ = tag := by
-  have ⟨h0, h1⟩ := tagOk_iff.mp htag
+  have ⟨h0, h1⟩ := tagOk0_iff.mp htag
   have h24 : tag.toNat < 2 ^ 24 := by simp; omega
   have hrt := tag_roundtrip hT.tags hT.tagsClean h24
   have hnat : ((tag.toNat : Nat) : Int) = tag := by omega
   rcases xmlStart_cases T hT ty htag val with ⟨hl, e⟩ | ⟨n, hl, f, e⟩
   · rw [e]
-    simp only [XCur.tag, XCur.rawTag, bne_self_eq_false, Bool.false_eq_true, if_false, attr, BEq.rfl,
-      if_true, Option.getD_some]
+    simp only [XCur.tag, Tables.tagOfText, hT.newTags, XCur.rawTag, bne_self_eq_false, Bool.false_eq_true,
+      if_false, attr, BEq.rfl, if_true, Option.getD_some]
     simp only [tagToText, hl] at hrt
     rw [hrt, hnat]
   · rw [e]
-    simp only [XCur.tag, XCur.rawTag, unpack_ne_TTLV f, if_true]
+    simp only [XCur.tag, Tables.tagOfText, hT.newTags, XCur.rawTag, unpack_ne_TTLV f, if_true,
+      Bool.false_eq_true, if_false]
     simp only [tagToText, hl] at hrt
     rw [hrt, hnat]
 
@@ -577,7 +623,7 @@ theorem attr_sType_tyval (ty : Nat) (val : Option Str) :
 
 /-- `Type()` of a written start element is the announced type. -/
 theorem ty_xmlStart (T : Tables) (hT : T.WF) {ty : Nat} (hty1 : 1 ≤ ty) (hty : ty < 11) {tag : Int}
-    (htag : tagOk tag = true) (val : Option Str) (r : List Tok) (b : Bool := false) :
+    (htag : tagOk0 tag = true) (val : Option Str) (r : List Tok) (b : Bool := false) :
     XCur.ty ⟨some (xmlStart T ty tag val), r, b⟩ = ty := by
   have hfin : (match (if ty == 1 then none else some (typeName ty) : Option Str) with
       | some s => (typeFromName s).getD typeInvalid
@@ -594,7 +640,7 @@ theorem ty_xmlStart (T : Tables) (hT : T.WF) {ty : Nat} (hty1 : 1 ≤ ty) (hty :
     rw [attr_sType_tyval]; exact hfin
 
 /-- the `value` attribute of a written scalar element. -/
-theorem value_xmlStart (T : Tables) (hT : T.WF) {ty : Nat} {tag : Int} (htag : tagOk tag = true) (v : Str) :
+theorem value_xmlStart (T : Tables) (hT : T.WF) {ty : Nat} {tag : Int} (htag : tagOk0 tag = true) (v : Str) :
     attr sValue (xmlStart T ty tag (some v)).2 = some v := by
   have hval : attr sValue (tyAttrs ty ++ valAttrs (some v)) = some v := by
     unfold tyAttrs valAttrs
@@ -607,7 +653,7 @@ theorem value_xmlStart (T : Tables) (hT : T.WF) {ty : Nat} {tag : Int} (htag : t
 
 /-- every scalar getter on the element it wrote. -/
 theorem scalar_xmlStart {α : Type} (T : Tables) (hT : T.WF) {ty : Nat} (hty2 : 2 ≤ ty) (hty : ty < 11)
-    {tag : Int} (htag : tagOk tag = true) (val : Str) (conv : Str → Res α) {v : α}
+    {tag : Int} (htag : tagOk0 tag = true) (val : Str) (conv : Str → Res α) {v : α}
     (hconv : conv val = .ok v) (rest : List Tok) :
     XCur.scalar T ⟨some (xmlStart T ty tag (some val)), .stop :: rest, false⟩ ty tag conv =
       .ok (v, after rest) := by
@@ -630,7 +676,7 @@ theorem toks_xmlScalar (T : Tables) (ty : Nat) (tag : Int) (val : Str) (rest : L
 theorem drain_none (f : Nat) (r : List Tok) : drain (f + 1) ⟨none, r, false⟩ = .ok ⟨none, r, false⟩ := rfl
 
 theorem tag_after_stop (T : Tables) (rest : List Tok) : XCur.tag T (after (.stop :: rest)) = 0 := by
-  simp [after, XCur.tag, XCur.rawTag, tagFromText]
+  cases T.oldTags <;> simp [after, XCur.tag, Tables.tagOfText, XCur.rawTag, tagFromText, tagFromTextOld]
 
 section
 variable {T : Tables} (hT : T.WF) {R : Rfc3339} (hR : R.Lawful) {H : Hints}
@@ -638,28 +684,28 @@ include hT hR
 
 /-- the generic decoder on a scalar element written by the XML writer. -/
 theorem xDecodeValue_scalar (t : XItem) (hns : t.ty ≠ 1) (f : Nat) (rest : List Tok)
-    (hr : t.representable H = true) :
+    (hr : t.representableG top R H = true) :
     xDecodeValue T R H (f + 1) ⟨some (xmlStart T t.ty t.tag (some (xmlValue T R t))), .stop :: rest, false⟩ t.tag =
       .ok (t, after rest) := by
   have htag := XItem.tagOk_of_rep hr
   cases t with
   | struct tag cs => exact absurd rfl hns
   | int tag v =>
-    simp only [XItem.representable, Bool.and_eq_true, decide_eq_true_eq] at hr
+    simp only [XItem.representableG, Bool.and_eq_true, decide_eq_true_eq] at hr
     simp only [XItem.ty, XItem.tag] at htag ⊢
     rw [xDecodeValue, ty_xmlStart T hT (by decide) (by decide) htag]
     simp only [hr.2, xmlValue]
     rw [scalar_xmlStart T hT (ty := 2) (by decide) (by decide) htag _ xInteger (xInteger_itoa hr.1.2) rest]
     rfl
   | mask tag m v =>
-    simp only [XItem.representable, Bool.and_eq_true, decide_eq_true_eq] at hr
+    simp only [XItem.representableG, Bool.and_eq_true, decide_eq_true_eq] at hr
     simp only [XItem.ty, XItem.tag] at htag ⊢
     rw [xDecodeValue, ty_xmlStart T hT (by decide) (by decide) htag]
     simp only [hr.2, xmlValue]
     rw [scalar_xmlStart T hT (ty := 2) (by decide) (by decide) htag _ _ (xMask_text (hT.mask _) hr.1.2) rest]
     rfl
   | long tag v =>
-    simp only [XItem.representable, Bool.and_eq_true] at hr
+    simp only [XItem.representableG, Bool.and_eq_true] at hr
     simp only [XItem.ty, XItem.tag] at htag ⊢
     rw [xDecodeValue, ty_xmlStart T hT (by decide) (by decide) htag]
     simp only [xmlValue]
@@ -672,7 +718,7 @@ theorem xDecodeValue_scalar (t : XItem) (hns : t.ty ≠ 1) (f : Nat) (rest : Lis
     rw [scalar_xmlStart T hT (ty := 4) (by decide) (by decide) htag _ bigOfHex (bigOfHex_xml v) rest]
     rfl
   | enum tag e v =>
-    simp only [XItem.representable, Bool.and_eq_true, decide_eq_true_eq] at hr
+    simp only [XItem.representableG, Bool.and_eq_true, decide_eq_true_eq] at hr
     simp only [XItem.ty, XItem.tag] at htag ⊢
     rw [xDecodeValue, ty_xmlStart T hT (by decide) (by decide) htag]
     simp only [hr.2, xmlValue]
@@ -698,14 +744,14 @@ theorem xDecodeValue_scalar (t : XItem) (hns : t.ty ≠ 1) (f : Nat) (rest : Lis
     rw [scalar_xmlStart T hT (ty := 8) (by decide) (by decide) htag _ xBytes (xBytes_hex s) rest]
     rfl
   | date tag v =>
-    simp only [XItem.representable, Bool.and_eq_true, decide_eq_true_eq] at hr
+    simp only [XItem.representableG, Bool.and_eq_true, decide_eq_true_eq] at hr
     simp only [XItem.ty, XItem.tag] at htag ⊢
     rw [xDecodeValue, ty_xmlStart T hT (by decide) (by decide) htag]
     simp only [xmlValue]
-    rw [scalar_xmlStart T hT (ty := 9) (by decide) (by decide) htag _ (xDate R) (xDate_format hR hr.1.2 hr.2) rest]
+    rw [scalar_xmlStart T hT (ty := 9) (by decide) (by decide) htag _ (xDate R) (xDate_format hR hr.2) rest]
     rfl
   | interval tag v =>
-    simp only [XItem.representable, Bool.and_eq_true, decide_eq_true_eq] at hr
+    simp only [XItem.representableG, Bool.and_eq_true, decide_eq_true_eq] at hr
     simp only [XItem.ty, XItem.tag] at htag ⊢
     rw [xDecodeValue, ty_xmlStart T hT (by decide) (by decide) htag]
     simp only [xmlValue]
@@ -716,11 +762,11 @@ mutual
   /-- the generic decoder reads back every representable tree the XML writer wrote, whatever follows it
       in the token stream, with any fuel `≥ size`. -/
   theorem xDecodeValue_write : ∀ (t : XItem) (fuel : Nat) (rest : List Tok), t.size ≤ fuel →
-      t.representable H = true →
+      t.representableG top R H = true →
       xDecodeValue T R H fuel (after ((xmlWrite T R t).toks ++ rest)) t.tag = .ok (t, after rest)
     | .struct tag cs, fuel, rest, hf, hr => by
       obtain ⟨f, rfl⟩ : ∃ f, fuel = f + 1 := ⟨fuel - 1, by simp [XItem.size] at hf; omega⟩
-      simp only [XItem.representable, Bool.and_eq_true] at hr
+      simp only [XItem.representableG, Bool.and_eq_true] at hr
       have htag := hr.1
       have hsz : XItem.sizeList cs ≤ f := by simp [XItem.size] at hf; omega
       have hc : after ((xmlWrite T R (.struct tag cs)).toks ++ rest) =
@@ -783,7 +829,7 @@ mutual
       exact xDecodeValue_scalar hT hR (.interval tag v) (by simp [XItem.ty]) f rest hr
   /-- … and the field loop reads back every list of children up to the end tag of their parent. -/
   theorem xDecodeFields_write : ∀ (cs : List XItem) (fuel : Nat) (rest : List Tok),
-      XItem.sizeList cs ≤ fuel → XItem.representableList H cs = true →
+      XItem.sizeList cs ≤ fuel → XItem.representableList R H cs = true →
       xDecodeFields T R H fuel (after (XElem.toksList (xmlWriteList T R cs) ++ .stop :: rest)) =
         .ok (cs, ⟨none, rest, false⟩)
     | [], fuel, rest, hf, _ => by
@@ -815,7 +861,7 @@ mutual
 end
 
 omit hR in
-theorem tag_after_write (t : XItem) (hr : t.representable H = true) (rest : List Tok) :
+theorem tag_after_write (t : XItem) (hr : t.representableG top R H = true) (rest : List Tok) :
     XCur.tag T (after ((xmlWrite T R t).toks ++ rest)) = t.tag := by
   cases t <;>
     simp only [xmlWrite, toks_xmlScalar, XElem.toks, after, List.cons_append, XItem.tag] <;>
@@ -843,7 +889,7 @@ theorem toks_ne_nil (e : XElem) : e.toks ≠ [] := by cases e; simp [XElem.toks]
 
 /-- XML: the reader reads back every representable tree the writer wrote. -/
 theorem xmlRead_write {T : Tables} (hT : T.WF) {R : Rfc3339} (hR : R.Lawful) {H : Hints} (t : XItem)
-    (hr : t.representable H = true) : xmlRead T R H (xmlWrite T R t) = .ok t := by
+    (hr : t.representableG top R H = true) : xmlRead T R H (xmlWrite T R t) = .ok t := by
   unfold xmlRead xmlReadToks
   have hn : XCur.next ⟨none, (xmlWrite T R t).toks, false⟩ = .ok (after (xmlWrite T R t).toks) :=
     next_noskip (Or.inl rfl) (Or.inl (toks_ne_nil _))
@@ -860,11 +906,11 @@ theorem xmlRead_write {T : Tables} (hT : T.WF) {R : Rfc3339} (hR : R.Lawful) {H 
 
 theorem typeName_nonempty : ∀ ty, ty < 11 → 1 ≤ ty → (typeName ty).isEmpty = false := by decide
 
-theorem tagString_nonneg (T : Tables) {tag : Int} (htag : tagOk tag = true) :
+theorem tagString_nonneg (T : Tables) {tag : Int} (htag : tagOk0 tag = true) :
     tagString T tag = tagToText T.tagNames tag.toNat := by
-  have ⟨h0, h1⟩ := tagOk_iff.mp htag
+  have ⟨h0, h1⟩ := tagOk0_iff.mp htag
   have hneg : ¬ tag < 0 := by omega
-  simp only [tagString, tagNameOf, hneg, if_false, tagToText, uintOf_nonneg (Int.le_of_lt h0) h1]
+  simp only [tagString, tagNameOf, hneg, if_false, tagToText, uintOf_nonneg h0 h1]
   cases lookup tag.toNat T.tagNames <;> rfl
 
 def tyFields (ty : Nat) : List (Str × JVal) := if ty == 1 then [] else [(sType, .str (typeName ty))]
@@ -894,14 +940,15 @@ theorem get_sValue (T : Tables) (ty : Nat) (tag : Int) (v : JVal) (more : List J
   by_cases h : (ty == 1) = true <;>
     simp [h, JCur.get, fieldOf]
 
-theorem jtag_jsonElem (T : Tables) (hT : T.WF) (ty : Nat) {tag : Int} (htag : tagOk tag = true) (v : JVal)
+theorem jtag_jsonElem (T : Tables) (hT : T.WF) (ty : Nat) {tag : Int} (htag : tagOk0 tag = true) (v : JVal)
     (more : List JVal) : JCur.tag T ⟨jsonElem T ty tag v :: more⟩ = tag := by
-  have ⟨h0, h1⟩ := tagOk_iff.mp htag
+  have ⟨h0, h1⟩ := tagOk0_iff.mp htag
   have h24 : tag.toNat < 2 ^ 24 := by simp; omega
   have hnat : ((tag.toNat : Nat) : Int) = tag := by omega
   unfold JCur.tag
   rw [get_sTag]
-  simp only [tagString_nonneg T htag, tag_roundtrip hT.tags hT.tagsClean h24, hnat]
+  simp only [Tables.tagOfText, hT.newTags, Bool.false_eq_true, if_false, tagString_nonneg T htag,
+    tag_roundtrip hT.tags hT.tagsClean h24, hnat]
 
 theorem jty_jsonElem (T : Tables) {ty : Nat} (hty1 : 1 ≤ ty) (hty : ty < 11) (tag : Int) (v : JVal)
     (more : List JVal) : JCur.ty ⟨jsonElem T ty tag v :: more⟩ = ty := by
@@ -914,7 +961,7 @@ theorem jty_jsonElem (T : Tables) {ty : Nat} (hty1 : 1 ≤ ty) (hty : ty < 11) (
 
 /-- every JSON scalar getter on the element it wrote. -/
 theorem scalar_jsonElem {α : Type} (T : Tables) (hT : T.WF) {ty : Nat} (hty1 : 1 ≤ ty) (hty : ty < 11)
-    {tag : Int} (htag : tagOk tag = true) (val : JVal) (conv : Option JVal → Res α) {v : α}
+    {tag : Int} (htag : tagOk0 tag = true) (val : JVal) (conv : Option JVal → Res α) {v : α}
     (hconv : conv (some val) = .ok v) (more : List JVal) :
     JCur.scalar T ⟨jsonElem T ty tag val :: more⟩ ty tag conv = .ok (v, ⟨more⟩) := by
   unfold JCur.scalar
@@ -928,28 +975,28 @@ variable {T : Tables} (hT : T.WF) {R : Rfc3339} (hR : R.Lawful) {H : Hints}
 include hT hR
 
 theorem jDecodeValue_scalar (t : XItem) (hns : t.ty ≠ 1) (f : Nat) (more : List JVal)
-    (hr : t.representable H = true) :
+    (hr : t.representableG top R H = true) :
     jDecodeValue T R H (f + 1) ⟨jsonElem T t.ty t.tag (jsonValue T R t) :: more⟩ t.tag =
       .ok (t, ⟨more⟩) := by
   have htag := XItem.tagOk_of_rep hr
   cases t with
   | struct tag cs => exact absurd rfl hns
   | int tag v =>
-    simp only [XItem.representable, Bool.and_eq_true, decide_eq_true_eq] at hr
+    simp only [XItem.representableG, Bool.and_eq_true, decide_eq_true_eq] at hr
     simp only [XItem.ty, XItem.tag] at htag ⊢
     rw [jDecodeValue, jty_jsonElem T (by decide) (by decide)]
     simp only [hr.2, jsonValue]
     rw [scalar_jsonElem T hT (ty := 2) (by decide) (by decide) htag _ jInteger (jInteger_num hr.1.2) more]
     rfl
   | mask tag m v =>
-    simp only [XItem.representable, Bool.and_eq_true, decide_eq_true_eq] at hr
+    simp only [XItem.representableG, Bool.and_eq_true, decide_eq_true_eq] at hr
     simp only [XItem.ty, XItem.tag] at htag ⊢
     rw [jDecodeValue, jty_jsonElem T (by decide) (by decide)]
     simp only [hr.2, jsonValue]
     rw [scalar_jsonElem T hT (ty := 2) (by decide) (by decide) htag _ _ (jMask_text (hT.mask _) hr.1.2) more]
     rfl
   | long tag v =>
-    simp only [XItem.representable, Bool.and_eq_true] at hr
+    simp only [XItem.representableG, Bool.and_eq_true] at hr
     simp only [XItem.ty, XItem.tag] at htag ⊢
     rw [jDecodeValue, jty_jsonElem T (by decide) (by decide)]
     simp only []
@@ -962,7 +1009,7 @@ theorem jDecodeValue_scalar (t : XItem) (hns : t.ty ≠ 1) (f : Nat) (more : Lis
     rw [scalar_jsonElem T hT (ty := 4) (by decide) (by decide) htag _ jBig jBig_value more]
     rfl
   | enum tag e v =>
-    simp only [XItem.representable, Bool.and_eq_true, decide_eq_true_eq] at hr
+    simp only [XItem.representableG, Bool.and_eq_true, decide_eq_true_eq] at hr
     simp only [XItem.ty, XItem.tag] at htag ⊢
     rw [jDecodeValue, jty_jsonElem T (by decide) (by decide)]
     simp only [hr.2, jsonValue]
@@ -988,15 +1035,15 @@ theorem jDecodeValue_scalar (t : XItem) (hns : t.ty ≠ 1) (f : Nat) (more : Lis
     rw [scalar_jsonElem T hT (ty := 8) (by decide) (by decide) htag _ jBytes (jBytes_hex s) more]
     rfl
   | date tag v =>
-    simp only [XItem.representable, Bool.and_eq_true, decide_eq_true_eq] at hr
+    simp only [XItem.representableG, Bool.and_eq_true, decide_eq_true_eq] at hr
     simp only [XItem.ty, XItem.tag] at htag ⊢
     rw [jDecodeValue, jty_jsonElem T (by decide) (by decide)]
     simp only [jsonValue]
     rw [scalar_jsonElem T hT (ty := 9) (by decide) (by decide) htag _ (jDate R)
-      (jDate_format hR hr.1.2 hr.2) more]
+      (jDate_format hR hr.2) more]
     rfl
   | interval tag v =>
-    simp only [XItem.representable, Bool.and_eq_true, decide_eq_true_eq] at hr
+    simp only [XItem.representableG, Bool.and_eq_true, decide_eq_true_eq] at hr
     simp only [XItem.ty, XItem.tag] at htag ⊢
     rw [jDecodeValue, jty_jsonElem T (by decide) (by decide)]
     simp only [jsonValue]
@@ -1006,11 +1053,11 @@ theorem jDecodeValue_scalar (t : XItem) (hns : t.ty ≠ 1) (f : Nat) (more : Lis
 
 mutual
   theorem jDecodeValue_write : ∀ (t : XItem) (fuel : Nat) (more : List JVal), t.size ≤ fuel →
-      t.representable H = true →
+      t.representableG top R H = true →
       jDecodeValue T R H fuel ⟨jsonWrite T R t :: more⟩ t.tag = .ok (t, ⟨more⟩)
     | .struct tag cs, fuel, more, hf, hr => by
       obtain ⟨f, rfl⟩ : ∃ f, fuel = f + 1 := ⟨fuel - 1, by simp [XItem.size] at hf; omega⟩
-      simp only [XItem.representable, Bool.and_eq_true] at hr
+      simp only [XItem.representableG, Bool.and_eq_true] at hr
       have htag := hr.1
       have hsz : XItem.sizeList cs ≤ f := by simp [XItem.size] at hf; omega
       simp only [jsonWrite, XItem.tag]
@@ -1049,7 +1096,7 @@ mutual
       obtain ⟨f, rfl⟩ : ∃ f, fuel = f + 1 := ⟨fuel - 1, by simp [XItem.size] at hf; omega⟩
       exact jDecodeValue_scalar hT hR (.interval tag v) (by simp [XItem.ty]) f more hr
   theorem jDecodeFields_write : ∀ (cs : List XItem) (fuel : Nat), XItem.sizeList cs ≤ fuel →
-      XItem.representableList H cs = true →
+      XItem.representableList R H cs = true →
       jDecodeFields T R H fuel ⟨jsonWriteList T R cs⟩ = .ok cs
     | [], fuel, hf, _ => by
       obtain ⟨f, rfl⟩ : ∃ f, fuel = f + 1 := ⟨fuel - 1, by simp [XItem.sizeList] at hf; omega⟩
@@ -1075,7 +1122,7 @@ mutual
 end
 
 omit hR in
-theorem jtag_write (t : XItem) (hr : t.representable H = true) (more : List JVal) :
+theorem jtag_write (t : XItem) (hr : t.representableG top R H = true) (more : List JVal) :
     JCur.tag T ⟨jsonWrite T R t :: more⟩ = t.tag := by
   cases t <;> simp only [jsonWrite, XItem.tag] <;>
     exact jtag_jsonElem T hT _ (XItem.tagOk_of_rep hr) _ _
@@ -1130,7 +1177,7 @@ end
 
 /-- JSON: the reader reads back every representable tree the writer wrote. -/
 theorem jsonRead_write {T : Tables} (hT : T.WF) {R : Rfc3339} (hR : R.Lawful) {H : Hints} (t : XItem)
-    (hr : t.representable H = true) : jsonRead T R H (jsonWrite T R t) = .ok t := by
+    (hr : t.representableG top R H = true) : jsonRead T R H (jsonWrite T R t) = .ok t := by
   unfold jsonRead
   simp only [jtag_write hT (R := R) t hr []]
   rw [jDecodeValue_write hT hR t _ [] (by have := size_le_jsize T R t; omega) hr]
@@ -1175,27 +1222,27 @@ mutual
     | .struct t cs, hn, hd => by
       simp only [XItem.normal] at hn
       simp only [XItem.inDomain, Bool.and_eq_true] at hd
-      simp only [XItem.representable, Bool.and_eq_true]
+      simp only [XItem.representableG, Bool.and_eq_true]
       exact ⟨hd.1, repList_of_normal H cs hn hd.2⟩
     | .int t v, hn, hd => by
       simp only [XItem.normal, Bool.and_eq_true] at hn
       simp only [XItem.inDomain, XItem.tag] at hd
-      simp only [XItem.representable, Bool.and_eq_true]; exact ⟨⟨hd, hn.1⟩, hn.2⟩
+      simp only [XItem.representableG, Bool.and_eq_true]; exact ⟨⟨hd, hn.1⟩, hn.2⟩
     | .mask t m v, hn, hd => by
       simp only [XItem.normal, Bool.and_eq_true] at hn
       simp only [XItem.inDomain, XItem.tag] at hd
-      simp only [XItem.representable, Bool.and_eq_true]; exact ⟨⟨hd, hn.1⟩, hn.2⟩
+      simp only [XItem.representableG, Bool.and_eq_true]; exact ⟨⟨hd, hn.1⟩, hn.2⟩
     | .long t v, hn, hd => by
       simp only [XItem.normal] at hn
       simp only [XItem.inDomain, XItem.tag] at hd
-      simp only [XItem.representable, Bool.and_eq_true]; exact ⟨hd, hn⟩
+      simp only [XItem.representableG, Bool.and_eq_true]; exact ⟨hd, hn⟩
     | .big t v, _, hd => by
       simp only [XItem.inDomain, XItem.tag] at hd
       simp only [XItem.representable]; exact hd
     | .enum t e v, hn, hd => by
       simp only [XItem.normal, Bool.and_eq_true] at hn
       simp only [XItem.inDomain, XItem.tag] at hd
-      simp only [XItem.representable, Bool.and_eq_true]; exact ⟨⟨hd, hn.1⟩, hn.2⟩
+      simp only [XItem.representableG, Bool.and_eq_true]; exact ⟨⟨hd, hn.1⟩, hn.2⟩
     | .bool t b, _, hd => by
       simp only [XItem.inDomain, XItem.tag] at hd
       simp only [XItem.representable]; exact hd
@@ -1211,9 +1258,9 @@ mutual
     | .interval t v, hn, hd => by
       simp only [XItem.normal] at hn
       simp only [XItem.inDomain, XItem.tag] at hd
-      simp only [XItem.representable, Bool.and_eq_true]; exact ⟨hd, hn⟩
+      simp only [XItem.representableG, Bool.and_eq_true]; exact ⟨hd, hn⟩
   theorem repList_of_normal (H : Hints) : ∀ cs : List XItem, XItem.normalList H cs = true →
-      XItem.inDomainList cs = true → XItem.representableList H cs = true
+      XItem.inDomainList cs = true → XItem.representableList R H cs = true
     | [], _, _ => rfl
     | c :: cs, hn, hd => by
       simp only [XItem.normalList, Bool.and_eq_true] at hn
